@@ -324,8 +324,10 @@ func (r *Reconciler) reconcileValidate(ctx context.Context, proposal *configapi.
 
 			switch targetProposal.Details.(type) {
 			case *configapi.Proposal_Change:
+				// The candidate is what the commit of the rollback values will leave behind: a restored value also
+				// removes the deleted ancestors that cover it (the tombstone of a deleted container)
 				for path, rollbackValue := range targetProposal.Status.RollbackValues {
-					changeValues[path] = rollbackValue
+					_, _ = applyChangeToConfig(changeValues, path, rollbackValue)
 				}
 				rollbackIndex = targetProposal.Status.RollbackIndex
 				rollbackValues = targetProposal.Status.RollbackValues
